@@ -56,6 +56,8 @@ mod guard;
 mod internal;
 mod pointers;
 mod sync;
+#[cfg(feature = "circ_verif")]
+pub mod verif_shim;
 
 pub use default::*;
 pub use epoch::*;
